@@ -32,3 +32,17 @@ Definition race_c : list ent := [ {| e_id := 1; e_c := cC0 |} ].
 Definition after (cf : cflags) (d : dstate) : dstate := compact_ds cf fl_pinned 1 [1] d.
 Definition feed_ids (f : feed) : list (uri * Z) :=
   map (fun ic : uri * content => (fst ic, match c_props (snd ic) with (_, v) :: _ => pv_code v | [] => 0 end)) f.
+
+(** a reachable state WITH duplicate versions under the repaired in-batch handling: a property holding a nested
+    entity never compares equal on the pinned write path (F02b), so three identical posts give three versions;
+    e2 is written in between *)
+Definition cN : content :=
+  {| c_del := false; c_props := [(1002, {| pv_code := 7; pv_obj := true |})]; c_refs := r_e2; c_len := 99 |}.
+Definition w_e2 (c : content) : wop := WBatch 1 [ {| e_id := 2; e_c := c |} ].
+Definition ops_nnn : list wop := [w1 cN; w_e2 cA0; w1 cN; w_e2 cC0; w1 cN].
+Definition st_nnn : store := run_wops fl_pinned DupLocalElseStored ops_nnn store0.
+Definition d_nnn : dstate := get_ds st_nnn 1.
+Definition fl_fixed : eqflags := {| f_lenkeys := false; f_objneq := false |}.
+
+(** F12c: one batch holding the same element (with a reference) twice; both versions carry the same recorded time *)
+Definition d_aar : dstate := get_ds (run_wops fl_pinned DupStoredAndLocal [w2 cA] store0) 1.
